@@ -302,6 +302,35 @@ Proof.
     right; right. apply remove1_In_neq; [exact K | intros E; subst; congruence].
 Qed.
 
+(* the flags of an ended thread that is not paused do not matter *)
+Lemma inv_upd_dead : forall s t x, inv s -> live (th s t) = false -> ~ In t (paused s) -> live x = false ->
+  inv (upd_th s t x).
+Proof.
+  intros s t x [[Hf Hp Hd Hb Hw Hs] Hc Hdead Hcs Hwp Hal] Hl Hnp Hx.
+  constructor; [constructor|..]; unf; try assumption.
+  - intros y Hy. destruct (Nat.eq_dec y t) as [E|E]; [subst; tauto | rewrite upd_other by exact E; apply Hw; exact Hy].
+  - destruct (Nat.eq_dec (cur s) t) as [E|E]; [rewrite E; intros _; exact Hnp | rewrite upd_other by exact E; exact Hdead].
+  - intros y H2 H3. destruct (Nat.eq_dec y t) as [E|E]; [subst; rewrite upd_same in H3; congruence|].
+    rewrite upd_other in H2, H3 by exact E. apply Hwp; assumption.
+  - intros y H1 H2. destruct (Nat.eq_dec y t) as [E|E]; [subst; rewrite upd_same in H2; congruence|].
+    rewrite upd_other in H2 by exact E. apply Hal; assumption.
+Qed.
+
+Lemma enqueue_upd_th : forall s t u x, enqueue (upd_th s u x) t = upd_th (enqueue s t) u x.
+Proof. intros. unfold enqueue. unf. destruct (back s); reflexivity. Qed.
+
+(* thread-terminate! of a paused thread (repaired): it stops waiting and is queued for its last scheduler call *)
+Lemma inv_unpause_enqueue_flags : forall s t, inv s -> In t (paused s) -> t <> cur s -> live (th s t) = false ->
+  inv (enqueue (upd_th (with_paused s (remove1 t (paused s))) t (set_flags (th s t) false false)) t).
+Proof.
+  intros s t Hi Hin Hne Hl. rewrite enqueue_upd_th.
+  pose proof (inv_unpause_enqueue s t Hi Hin Hne Hl) as Hi2.
+  apply inv_upd_dead; [exact Hi2 | | | exact Hl].
+  - destruct (enqueue_frame (with_paused s (remove1 t (paused s))) t) as [_ [_ [F3 _]]]. rewrite F3. exact Hl.
+  - destruct (enqueue_frame (with_paused s (remove1 t (paused s))) t) as [_ [F2 _]]. rewrite F2. unf.
+    apply remove1_notin. exact (q_ndp s (i_q s Hi)).
+Qed.
+
 Lemma inv_broadcast_loop : forall fuel s c r, inv s -> waitp (th s (cur s)) = false ->
   inv (fst (broadcast_loop fuel s c r)) /\ cur (fst (broadcast_loop fuel s c r)) = cur s.
 Proof.
@@ -334,7 +363,7 @@ Proof.
     + assert (Hi1 := inv_set_dead_other s t Hi E).
       destruct (memb t (paused (upd_th s t (set_live (th s t) false)))) eqn:Em; simpl; [|exact Hi1].
       apply memb_In in Em.
-      apply (inv_unpause_enqueue (upd_th s t (set_live (th s t) false)) t Hi1 Em E).
+      apply (inv_unpause_enqueue_flags (upd_th s t (set_live (th s t) false)) t Hi1 Em E).
       unf. rewrite upd_same. reflexivity.
   - (* join *) unfold thread_join. destruct (negb (live (th s t))); simpl; [exact Hi|].
     apply inv_block; try assumption; reflexivity || exact Hl.
